@@ -195,7 +195,20 @@ else:
         for ln in range(1, total + 1):
             cases.append(fmt_case("TBS"[t % 3], 1, se, a, ln, seqs, [3] * k))
 
+def tiny_seqs(rng, k):
+    return [sorted(rng.below(50) for _ in range(rng.below(4))) for _ in range(k)]
+
 if not ck.replay:
+    # (d) many sequences: indices beyond 8 bits (255, 256, 257, 300) and k = 1000, every algorithm, tiny sequences
+    for k in (255, 256, 257, 300, 1000):
+        for a in range(4):
+            for st in (0, 1):
+                for rep in range(4 if ck.thorough() else 1):
+                    seqs = tiny_seqs(rng, k)
+                    total = sum(len(x) for x in seqs)
+                    ln = total if rng.below(2) == 0 else rng.range(0, total)
+                    se = 1 if a == 2 else rng.below(2)
+                    cases.append(fmt_case("ITBS"[rng.below(4)], st, se, a, ln, seqs, [60] * k))
     cases = [assign_variant(rng, c) for c in cases]
 
 # ---------------------------------------------------------------- the property, decided on a result line of the implementation
@@ -320,7 +333,10 @@ def run_cases(cases, tag):
             found = True; crashed = True
             nok = len([l for l in lines if l.startswith("out=")])
             bad = None
-            for pos in range(max(0, min(nok, len(idxs)) - 1), len(idxs)):
+            if "NO-TERMINATION" in out1 and nok < len(idxs):
+                # the per-case watchdog (20 s) fired: the case is the first one without an output line
+                bad = (cases[idxs[nok]], "no result within the 20 s per-case watchdog: the merge does not terminate\n" + out1[-300:])
+            for pos in ([] if bad else range(max(0, min(nok, len(idxs)) - 1), len(idxs))):
                 one = os.path.join(ck.scratch, "one.txt"); open(one, "w").write(cases[idxs[pos]] + "\n")
                 r, o = verif.sh([exes[part], one], timeout=60)
                 if r != 0: bad = (cases[idxs[pos]], o); break
@@ -429,6 +445,39 @@ def run_huge():
     if pairs and len(samples) < 6:
         samples.append({"huge_case": pairs[0][0], "result": impl[0][:200] if impl else None})
 
+
+# ---------------------------------------------------------------- k = 65537 (indices beyond 16 bits), tree algorithms only
+def run_big_k():
+    """k = 65537 tiny sequences through the three loser-tree algorithms (bubble is quadratic in k). The extracted model's
+    list-based tree would need minutes here, so these cases are judged by the property verdict alone, i.e. against the
+    proven specification (stable: the sorted (key, sequence, position) prefix; all: sorted interleaving, cursors, minimality)."""
+    global found
+    k = 65537
+    bc = []
+    for a in (0, 1, 2):
+        for st in (0, 1):
+            for rep in range(3 if ck.thorough() else 1):
+                seqs = tiny_seqs(rng, k)
+                total = sum(len(x) for x in seqs)
+                ln = total if rng.below(2) == 0 else rng.range(total // 2, total)
+                bc.append(fmt_case("TB"[rng.below(2)], st, 1 if a == 2 else rng.below(2), a, ln, seqs, [60] * k) + " v=0.0")
+    f = os.path.join(ck.scratch, "bigk.txt"); open(f, "w").write("\n".join(bc) + "\n")
+    rc, out = verif.sh([exes[0], f], timeout=600)
+    lines = [l for l in out.splitlines() if l.startswith("out=")]
+    counters["evaluations"] += len(bc); counters["k65537_cases"] = len(bc)
+    if rc != 0:
+        found = True
+        c = bc[min(len(lines), len(bc) - 1)]
+        ck.violation("multiway merge entry point crashes or does not terminate with k = 65537 sequences",
+                     {"case": c, "log_tail": out[-800:] if len(out) < 100000 else out[-800:]})
+        return
+    for c, a in zip(bc, lines):
+        v = property_verdict(c, a.strip()); counters["verdicts"] += 1
+        if v is not None:
+            found = True
+            if ck.violations < 3:
+                ck.violation("implementation violates the property with k = 65537 sequences: %s" % v, {"case": c, "impl": a[:400]})
+
 import concurrent.futures
 def _build(part):
     if part == 0: return ck.build_cpp("c05_harness", ["harness/C05/mwm_harness.cpp"])
@@ -472,6 +521,7 @@ else:
             samples.append({"case": cases[i], "result": impl[i]})
     if not ck.replay:
         run_huge()
+        run_big_k()
     if ck.thorough() and not ck.replay and not found:
         run_cases(exhaustive_ties(), "ties_all")
         ck.coverage["exhaustive_tie_family"] = "all k=3 inputs over the 10 sorted words of length <= 2 on 3 keys (every length, guarded/combined/sentinel), all k=4 inputs over the 7 duplicate-free words (3 longest lengths, guarded/combined)"
@@ -496,10 +546,11 @@ ck.finish({
     "distinct_nontrivial": len(distinct),
     "property_verdicts_on_impl": counters["verdicts"],
     "unstable_results_differing_from_c09_backed_model_in_tie_choice_only": counters.get("tie_choice_differs", 0),
-    "rule": "cases = (element type, entry point, algorithm, length, sequences[, sentinels]); small inputs (k in 0..9 and 17; medium family also k = 33, 64, 65; keys shifted to negative / large values in a quarter of the inputs; six shapes: tiny alphabet, all equal, one dominant sequence, wide keys, many empty sequences, staircase) are run for EVERY length 0..total, medium inputs for three lengths under all 16 algorithm/entry-point combinations; k = 3, 4 tie patterns (sorted words of length <= 2 over 3 keys) for every length through the stable entry points. Each case runs on /repo's entry point (checking iterators, ASan+UBSan) and on the extracted Coq model; lines are compared (fully for stable entry points, keys + returned position otherwise; the model runs C09's loser-tree model, and the number of unstable results differing from it in the tie choice only is recorded) and the property is decided directly on the implementation's line. non-trivial = k >= 2, at least two non-empty sequences and length > 0; distinct = distinct case text.",
+    "rule": "cases = (element type, entry point, algorithm, length, sequences[, sentinels]); small inputs (k in 0..9 and 17; medium family also k = 33, 64, 65; a many-sequences family k = 255, 256, 257, 300, 1000 and 65537; keys shifted to negative / large values in a quarter of the inputs; six shapes: tiny alphabet, all equal, one dominant sequence, wide keys, many empty sequences, staircase) are run for EVERY length 0..total, medium inputs for three lengths under all 16 algorithm/entry-point combinations; k = 3, 4 tie patterns (sorted words of length <= 2 over 3 keys) for every length through the stable entry points. Each case runs on /repo's entry point (checking iterators, ASan+UBSan) and on the extracted Coq model; lines are compared (fully for stable entry points, keys + returned position otherwise; the model runs C09's loser-tree model, and the number of unstable results differing from it in the tie choice only is recorded) and the property is decided directly on the implementation's line. non-trivial = k >= 2, at least two non-empty sequences and length > 0; distinct = distinct case text.",
     "samples": samples,
     "input_distribution": hist,
     "api_surface": API_SURFACE,
+    "many_sequences": "k in 255, 256, 257, 300, 1000 with every algorithm, stable and unstable, tiny sequences (0-3 elements), compared with the extracted model as every other case; k = 65537 (%d cases, loser-tree algorithms only: bubble is quadratic in k) judged by the property verdict alone, i.e. against the proven specification, because the extracted model's list-based tree needs minutes there; every case runs under a 20 s watchdog and a merge that does not come back is reported with that case as replay" % counters.get("k65537_cases", 0),
     "huge_totals": "family of %d cases with total input sizes 2^31, 2^32, 2^32+7 and 2.8e9 elements (k in 2,3,4,5,8; every algorithm; stable and unstable; sentinel and plain entry points; 1-byte elements = copy-based trees and 24-byte records = pointer-based trees) carved from one sparse MAP_NORESERVE mapping; since a merge of len elements depends only on the first len elements of each sequence, these cases are judged against the extracted model and the property verdict run on the sequences truncated to len elements (the theorems themselves have no size bound other than k <= 2^30)" % counters.get("huge_total_cases", 0),
 }, assumptions=[
     "loser trees enter the general theorems through an interface (winner = live source with minimal head, stable: smallest index among equivalent); the interface is instantiated with C09's model of loser_tree.hpp (guarded classes: every input; unguarded classes: under C09's key precondition) and with a reference tournament; the correspondence run executes the C09-backed model (copy classes for I/T, pointer classes for B) and cross-checks it with the reference tournament",
